@@ -2,7 +2,7 @@
   Driver for C09 — fragmentation invariance and I/O failures (readers and writers).
 
   Reader lines
-    frag <decoder> <hex input> <k> <schedule> <tail> base=<obs> <key=value …>  =>  <obs>
+    frag <decoder> <input: hex or bx expression> <k> <schedule> <tail> base=<obs> <key=value …>  =>  <obs>
       the source delivers the first <k> bytes of the input in chunks of the scheduled sizes (`-` = one chunk;
       the last size repeats when the schedule runs out) and then ends with <tail>:
         eof | fail (injected I/O error) | eofd / faild (the last chunk is delivered TOGETHER with the end)
@@ -10,7 +10,7 @@
                (left = delivered bytes the decoder did not consume)
       base   = the observation of the contiguous run on the WHOLE input ending with EOF (`|` for spaces)
   Writer lines
-    wfault <encoder> <mode> <k> full=<hex> <key=value …>  =>  ok|err wrote=<hex>
+    wfault <encoder> <mode> <k> full=<bx> <key=value …>  =>  ok|err wrote=<hex or digest>
       the sink accepts <k> bytes and then fails with a short write; mode `stick`: it keeps failing,
       `once`: it fails once and accepts everything afterwards; full = what the encoder writes to an unlimited sink
 
@@ -18,6 +18,13 @@
   Model/NBTTyped / NBTField printed by Driver.GoValText), `palette` (Model/Palette), `section` / `chunk` / `blockentity`
   (Model/ChunkWire) — the owning properties' models on the chunked stream; writers `nbt` (Model/WritersNBT), `palette`,
   `section` (Model/WritersLevel), `chunk` (Model/WritersChunk).
+
+  Large values: the input of a `frag` line and `full=` are bx expressions of harness/c07.go (hex pieces, `g<seed>.<n>`,
+  `r<seed>.<n>`, `z<hh>.<n>` joined by `+`); the parameters of the decoders / encoders in `macroEncoders` may contain the
+  macros `!h<bx>!`, `!l<bx>!`, `!q<bx>!` (`expand`); a token `key=value` of an observation longer than 600 characters is
+  replaced by its length and FNV-1a digest (`squash`), what a sink received beyond 256 bytes likewise (`digW`).  For an
+  input longer than 2048 bytes the model's own contiguous run is compared with `base` only on the contiguous line
+  (once per input), the model's unlimited run with `full` only on the `k = 0` lines.
 
   The registries `decoders` / `encoders` have one line per decoder / encoder (harness/c09.go has the matching
   line).  The model side runs the decoder model on the chunked `Stream` / the `Wr` model under `budget := some k`.
@@ -138,8 +145,17 @@ def runSnbt (p : List String) (s : Stream) : Option (String × Stream) :=
   let (r, s') := snbtDoc fo s
   some (core r fun (_, text) => s!"text={hexOfBytes text}", s')
 
+/-- the longs of a byte string, linear in its length (C11's `longsOfBytes` measures the rest at every step) -/
+def longsLin : Bytes → List (BitVec 64) → Option (List (BitVec 64))
+  | [], acc => some acc.reverse
+  | a :: b :: c :: d :: e :: f :: g :: h :: rest, acc => longsLin rest (C11.longOfBytes [a, b, c, d, e, f, g, h] :: acc)
+  | _, _ => none
+
+def parseInitLin (s : String) : Option (Option (List (BitVec 64))) :=
+  if s == "nil" then some none else ((parseHex s).bind fun bs => longsLin bs []).map some
+
 def bitsOf (p : List String) : Option BitStorage :=
-  match (kv p "b").bind String.toInt?, (kv p "n").bind String.toInt?, (kv p "init").bind C11.parseInit with
+  match (kv p "b").bind String.toInt?, (kv p "n").bind String.toInt?, (kv p "init").bind parseInitLin with
   | some b, some n, some init =>
     match newBitStorage b n init with
     | .ok st => some st
@@ -272,8 +288,62 @@ def decoders : List (String × Dec) := [
   ("chat.type", { run := runChatType })
 ]
 
+/-! ### compact descriptions of large payloads (mirrors of harness/c09.go) -/
+
+/-- encoders whose parameters may contain the macros `!h<bx>!` (hex digits of the bytes of the bx expression) and
+`!l<bx>!` (the bytes as a comma-separated list of two-digit hex numbers), `!q<bx>!` (as 16-digit numbers) -/
+def macroEncoders : List String := ["fld", "rcon", "dynbt", "nbt", "bits"]
+
+def hexCharsOf (bs : Bytes) : List Char :=
+  bs.foldr (fun b acc => hexDigit (b.toNat / 16) :: hexDigit (b.toNat % 16) :: acc) []
+
+def groups8 : Bytes → Nat → List String
+  | a :: b :: c :: d :: e :: f :: g :: h :: rest, fuel + 1 => hexOfBytes [a, b, c, d, e, f, g, h] :: groups8 rest fuel
+  | _, _ => []
+
+def expandMacro (m : String) : Option String :=
+  let body := (m.drop 1).toString
+  if m.startsWith "h" then (C07.parseBx body).map fun bs => String.ofList (hexCharsOf bs)
+  else if m.startsWith "l" then
+    (C07.parseBx body).map fun bs =>
+      String.ofList ((bs.foldr (fun b acc => ',' :: hexDigit (b.toNat / 16) :: hexDigit (b.toNat % 16) :: acc) []).drop 1)
+  else if m.startsWith "q" then
+    (C07.parseBx body).map fun bs => ",".intercalate (groups8 bs bs.length)
+  else none
+
+/-- literal!macro!literal!macro!… -/
+def expandParts : List String → Bool → Option String
+  | [], _ => some ""
+  | p :: ps, isMacro =>
+    match (if isMacro && !p.isEmpty then expandMacro p else some p), expandParts ps (!isMacro) with
+    | some a, some b => some (a ++ b)
+    | _, _ => none
+
+def expand (s : String) : Option String :=
+  if !s.contains '!' then some s else expandParts (s.splitOn "!") false
+
+def expandParams (name : String) (params : List String) : Option (List String) :=
+  if macroEncoders.contains name then params.mapM expand else some params
+
+/-- what the sink received: hex up to 256 bytes, a digest beyond -/
+def digW (bs : Bytes) : String :=
+  if bs.length ≤ 256 then hexOfBytes bs
+  else s!"#{bs.length}:{hexOfNat 16 (C07.fnv64 bs).toNat}:{hexOfBytes (bs.take 8)}"
+
+/-- a token `key=value` longer than 600 characters becomes `key=#<length of the value>:<FNV-1a of the value text>` -/
+def squash (obs : String) : String :=
+  if obs.length ≤ 600 then obs else
+  " ".intercalate ((obs.splitOn " ").map fun t =>
+    if t.length ≤ 600 then t else
+    match t.splitOn "=" with
+    | key :: rest@(_ :: _) =>
+      let v := "=".intercalate rest
+      let h : UInt64 := v.foldl (fun h c => (h ^^^ c.toNat.toUInt64) * 0x100000001b3) 0xcbf29ce484222325
+      s!"{key}=#{v.length}:{hexOfNat 16 h.toNat}"
+    | _ => t)
+
 def showObs (c : String) (s' : Stream) : String :=
-  if c == "panic" then "panic" else s!"{c} left={s'.flat.length}"
+  if c == "panic" then "panic" else s!"{squash c} left={s'.flat.length}"
 
 def toks (o : String) : List String := o.splitOn " "
 def cls (o : String) : String := (toks o).headD ""
@@ -283,16 +353,19 @@ def dropLeft (o : String) : String := " ".intercalate ((toks o).filter fun t => 
 def frag (args : List String) (obs : String) : Verdict :=
   match args with
   | name :: hexS :: kS :: sched :: tail :: params =>
-    match decoders.lookup name, parseHex hexS, kS.toNat? with
-    | some d, some input, some k =>
+    match decoders.lookup name, C07.parseBx hexS, kS.toNat?, expandParams name params with
+    | some d, some input, some k, some params =>
       if k > input.length then { model := "bad-arg" } else
       match mkStream input k sched tail with
       | none => { model := "bad-arg" }
       | some s =>
-        match d.run params s, d.run params (Stream.ofBytes input) with
+        -- the model's own contiguous run is compared with `base` on every line of a small input, and once (on the
+        -- contiguous line) for a large one
+        let base := ((kv params "base").getD "").replace "|" " "
+        let checkBase := input.length ≤ 2048 || (k == input.length && sched == "-" && tail == "eof")
+        match d.run params s, (if checkBase then d.run params (Stream.ofBytes input) else some (base, Stream.ofBytes [])) with
         | some (c, s'), some (bc, bs') =>
-          let base := ((kv params "base").getD "").replace "|" " "
-          let mbase := showObs bc bs'
+          let mbase := if checkBase then showObs bc bs' else base
           let m := showObs c s'
           let model := if mbase == base then m else s!"{m} [model-base={mbase}]"
           let eofish := tail == "eof" || tail == "eofd"
@@ -323,7 +396,7 @@ def frag (args : List String) (obs : String) : Verdict :=
               else none
           { model, spec }
         | _, _ => { model := "bad-arg" }
-    | _, _, _ => { model := "bad-arg" }
+    | _, _, _, _ => { model := "bad-arg" }
   | _ => { model := "bad-arg" }
 
 /-! ### encoders: parameters → writer program (result forgotten) -/
@@ -434,10 +507,10 @@ def encoders : List (String × (List String → Option (Wr Unit))) := [
   ("chat.type", encChatType)
 ]
 
-def showW (r : Res Unit × WState) : String := s!"{resTag r.1} wrote={hexOfBytes r.2.out}"
+def showW (r : Res Unit × WState) : String := s!"{resTag r.1} wrote={digW r.2.out}"
 
 def wfaultSpec (k : Nat) (full : Bytes) (obs : String) : Option String :=
-  let wantFull := s!"ok wrote={hexOfBytes full}"
+  let wantFull := s!"ok wrote={digW full}"
   if obs == "panic" then some "encoder panicked" else
   if k < full.length then
     (if cls obs == "err" then none
@@ -453,14 +526,15 @@ def wfault (args : List String) (obs : String) : Verdict :=
       | some k, some full => { model := obs, spec := wfaultSpec k full obs }
       | _, _ => { model := "bad-arg" }
     else
-    match encoders.lookup name, kS.toNat?, (kv params "full").bind C07.parseBx with
-    | some mk, some k, some full =>
-      match mk params with
+    match encoders.lookup name, kS.toNat?, (kv params "full").bind C07.parseBx, expandParams name params with
+    | some mk, some k, some full, some xparams =>
+      match mk xparams with
       | none => { model := "bad-arg" }
       | some e =>
         let m := showW (e ⟨[], some k⟩)
-        let mfull := showW (e ⟨[], none⟩)
-        let wantFull := s!"ok wrote={hexOfBytes full}"
+        let wantFull := s!"ok wrote={digW full}"
+        -- the model's unlimited run is compared with `full` on every line of a short encoding, on the k = 0 lines of a long one
+        let mfull := if full.length ≤ 2048 || k == 0 then showW (e ⟨[], none⟩) else wantFull
         let model := if mfull == wantFull then m else s!"{m} [model-full={mfull.take 200}]"
         let spec : Option String :=
           if obs == "panic" then some "encoder panicked" else
@@ -470,7 +544,7 @@ def wfault (args : List String) (obs : String) : Verdict :=
           else
             (if obs == wantFull then none else some s!"the sink had room for the whole encoding: expected {wantFull.take 200}")
         { model, spec }
-    | _, _, _ => { model := "bad-arg" }
+    | _, _, _, _ => { model := "bad-arg" }
   | _ => { model := "bad-arg" }
 
 def handle (op : String) (args : List String) (obs : String) : Option Verdict :=
